@@ -314,8 +314,10 @@ where
                         .unwrap_or_else(|e| error!("[udp] client*-local send mpsc failed; error={}", e));
                 }
                 Err(e) => {
+                    // one undecodable datagram (anybody can send one to this socket) is dropped; a stream carrier that
+                    // failed ends by itself with the next poll
                     error!("[udp] server*-client decode failed; error={}", e);
-                    break;
+                    continue;
                 }
             }
         }
